@@ -12,29 +12,24 @@
    [reach matches tr s]: s is reached by the history tr of atomic actions
      LArrive (transport), LRead / LFan order / LPush / LNext (socket reader: read, take msg_senders and fix the iteration
      order, one broadcast_direct, release), LAddStart / LAddCheck / LAddSubs / LAddSender (add_match for a new stream),
-     LUnfiltered (MessageStream::from(conn)), LPoll (the stream is polled once), LDrop (Drop: the remove_match is queued as a
-     task; LTaskSubs / LTaskSender run it), LDropStart / LDropSubs / LDropSender (async_drop), LClone, LSetCap.
+     LUnfiltered (MessageStream::from(conn)), LPoll (the stream is polled once), LDrop (Drop) and LDropStart (async_drop): the receiver is released
+     and a remove_match call begins, LTaskSubs / LTaskSender are its two steps; LClone, LSetCap.  (LDropSubs / LDropSender: the pre-fix
+     async_drop, never enabled any more, see C20_no_async_drop_in_progress.)
    The history IS the scheduler, the application, the peer and the transport: nothing else restricts the interleaving, the
    number of streams or rules, or the capacities.  [exec] = the executable replay used by the correspondence check. *)
 From ZV Require Import Base.Bytes Base.Res C19.Broadcast C20.Model C20.Steps C20.Inv C20.Proofs C20.Progress C20.Share C20.Refute C20.Main.
 
-(* ------------------------------------------------------------------ the full statements (what the property asks for) *)
-(* every stream that is alive and not in the very last step of its asynchronous drop has, at every moment, yielded + still
-   queued = exactly the messages accepted by its rule among those decided for its channel since it subscribed, in order of
-   arrival, each once *)
+(* ------------------------------------------------------------------ the full statement (what the property asks for) *)
+(* every stream has, at every moment, yielded + still queued = exactly the messages accepted by its rule among those decided for
+   its channel since it subscribed, in order of arrival, each once *)
 Definition C20_full_statement : Prop :=
   forall matches tr s sid st, reach matches tr s ->
-    lookup (streams s) sid = Some st -> (forall c, lookup (drops s) sid <> Some (R1 c)) -> reader s <> RStopped ->
+    lookup (streams s) sid = Some st -> reader s <> RStopped ->
     msgs (s_got st) ++ msgs (unread (chan_at s (s_ch st)) sid) =
     filter (accepts matches (skey st)) (skipn (s_from st) (firstn (seen s (s_ch st)) (incoming s))).
-(* the socket reader waits for room only behind a stream that the application can poll *)
-Definition C20_progress_full_statement : Prop :=
-  forall matches tr s it c todo, reach matches tr s -> reader s = RPush it (c :: todo) -> try_push it (chan_at s c) = PFull ->
-    exists sid st s', lookup (streams s) sid = Some st /\ s_ch st = c /\ step matches (LPoll sid) s = Some s'.
 
-(* the decidable classes of histories/states in which the code as it is falls short (known_findings/C20.jsonl) *)
+(* the decidable class of histories in which the code as it is falls short (known_findings/C20.jsonl) *)
 Definition Known_C20 (tr : list label) : bool := has_clone tr.                                  (* clone_uncounted *)
-Definition Known_C20_drop (s : sys) : bool := match drops s with [] => false | _ => true end.   (* async_drop_deadlock *)
 
 (* ------------------------------------------------------------------ delivery *)
 (* for every stream whose channel is registered in msg_senders under the stream's own key — cloned or not *)
@@ -47,7 +42,7 @@ Print Assumptions C20_delivery.
 
 (* the full statement, outside the known class *)
 Theorem C20_delivery_partial : forall matches tr s sid st, reach matches tr s -> Known_C20 tr = false ->
-  lookup (streams s) sid = Some st -> (forall c, lookup (drops s) sid <> Some (R1 c)) -> reader s <> RStopped ->
+  lookup (streams s) sid = Some st -> reader s <> RStopped ->
   msgs (s_got st) ++ msgs (unread (chan_at s (s_ch st)) sid) =
   filter (accepts matches (skey st)) (skipn (s_from st) (firstn (seen s (s_ch st)) (incoming s))).
 Proof. exact delivery_partial. Qed.
@@ -56,74 +51,59 @@ Print Assumptions C20_delivery_partial.
 (* when the reader is idle and the stream has been polled to the end: it has yielded exactly the matching messages read from
    the socket since it subscribed — none missing, none twice, none foreign, in order *)
 Theorem C20_delivery_quiescent : forall matches tr s sid st, reach matches tr s -> Known_C20 tr = false ->
-  lookup (streams s) sid = Some st -> (forall c, lookup (drops s) sid <> Some (R1 c)) ->
-  reader s = RIdle -> unread (chan_at s (s_ch st)) sid = [] ->
+  lookup (streams s) sid = Some st -> reader s = RIdle -> unread (chan_at s (s_ch st)) sid = [] ->
   msgs (s_got st) = filter (accepts matches (skey st)) (skipn (s_from st) (incoming s)).
 Proof. exact delivery_partial_quiescent. Qed.
 Print Assumptions C20_delivery_quiescent.
 
-(* the registration itself: a live stream is in msg_senders under its own key until the reader fails *)
+(* the registration itself: a stream is in msg_senders under its own key until the reader fails *)
 Theorem C20_registered : forall matches tr s sid st, reach matches tr s -> Known_C20 tr = false ->
-  lookup (streams s) sid = Some st -> (forall c, lookup (drops s) sid <> Some (R1 c)) ->
-  In (skey st, s_ch st) (senders s) \/ reader s = RStopped.
+  lookup (streams s) sid = Some st -> In (skey st, s_ch st) (senders s) \/ reader s = RStopped.
 Proof. exact registered. Qed.
 Print Assumptions C20_registered.
 
 (* ------------------------------------------------------------------ sharing *)
-(* the reference count of a rule is the number of its holders (streams created for it whose remove_match has not been applied,
-   queued remove_match tasks not yet run, the add_match call that is creating it); a rule without entry has no holder; all streams of a rule
-   read the one channel of its entry *)
+(* the reference count of a rule is the number of its holders (streams created for it, remove_match calls — queued by Drop or
+   started by async_drop — that have not taken `subscriptions` yet, the add_match call that is creating it); a rule without
+   entry has no holder; all streams of a rule read the one channel of its entry *)
 Theorem C20_share_partial : forall matches tr s, reach matches tr s -> Known_C20 tr = false ->
-  (forall r, match lookup (subs s) r with Some e => e_ref e = holders s r | None => holders s r = 0 end) /\
-  (forall sid st r e, lookup (streams s) sid = Some st -> s_rule st = Some r -> in_r1 s sid = false -> lookup (subs s) r = Some e ->
-     s_ch st = e_ch e).
+  (forall r, match lookup (subs s) r with Some e => e_ref e = holders_of s r | None => holders_of s r = 0 end) /\
+  (forall sid st r e, lookup (streams s) sid = Some st -> s_rule st = Some r -> lookup (subs s) r = Some e -> s_ch st = e_ch e).
 Proof. exact share_partial. Qed.
 Print Assumptions C20_share_partial.
 
-(* ------------------------------------------------------------------ back-pressure *)
-(* while no asynchronous drop is under way: a reader blocked on a full queue is blocked behind a stream that can be polled *)
-Theorem C20_progress_partial : forall matches tr s it c todo, reach matches tr s -> Known_C20_drop s = false ->
+(* ------------------------------------------------------------------ back-pressure, at full strength (since fix 90a1ccff) *)
+(* a reader blocked on a full queue is blocked behind a stream that the application can poll — in every reachable state *)
+Theorem C20_progress : forall matches tr s it c todo, reach matches tr s ->
   reader s = RPush it (c :: todo) -> try_push it (chan_at s c) = PFull ->
   exists sid st s', lookup (streams s) sid = Some st /\ s_ch st = c /\ step matches (LPoll sid) s = Some s'.
-Proof. exact progress_partial. Qed.
-Print Assumptions C20_progress_partial.
+Proof. exact progress_full. Qed.
+Print Assumptions C20_progress.
 
-(* ------------------------------------------------------------------ the refutations *)
+(* the pre-fix async_drop (remove_match while the stream still holds its receiver) is gone: its table stays empty and the two
+   labels that worked on it are never enabled *)
+Theorem C20_no_async_drop_in_progress : forall matches tr s sid, reach matches tr s ->
+  drops s = [] /\ step matches (LDropSubs sid) s = None /\ step matches (LDropSender sid) s = None.
+Proof. exact no_async_drop. Qed.
+Print Assumptions C20_no_async_drop_in_progress.
+
+(* ------------------------------------------------------------------ the refutations (clone) *)
 Theorem C20_clone_uncounted_refuted : ~ C20_full_statement.
 Proof. exact delivery_full_refuted. Qed.
 Print Assumptions C20_clone_uncounted_refuted.
 
 Theorem C20_clone_count_refuted :
-  exists tr s r e, reach all_match tr s /\ lookup (subs s) r = Some e /\ e_ref e <> holders s r.
+  exists tr s r e, reach all_match tr s /\ lookup (subs s) r = Some e /\ e_ref e <> holders_of s r.
 Proof. exact share_full_refuted. Qed.
 Print Assumptions C20_clone_count_refuted.
-
-Theorem C20_async_drop_deadlock_refuted : ~ C20_progress_full_statement.
-Proof. exact progress_full_refuted. Qed.
-Print Assumptions C20_async_drop_deadlock_refuted.
-
-(* ... and that state is a deadlock: after async_drop of the only stream of a rule whose queue is full while the reader waits
-   for room in it, whatever anybody does afterwards the reader never reads again, `subscriptions` stays locked, the async_drop
-   never returns *)
-Theorem C20_async_drop_wedged_for_ever : forall matches tr s s' sid c, wedged s sid c -> exec matches tr s = Some s' ->
-  wedged s' sid c /\ subs_busy s' = true /\ senders_held s' = true /\ lookup (drops s') sid <> None /\
-  step matches LRead s' = None /\ step matches LPush s' = None /\ step matches (LDropSender sid) s' = None /\
-  (forall sid', step matches (LAddSubs sid') s' = None) /\ (forall n, step matches (LTaskSubs n) s' = None) /\
-  (forall sid', step matches (LDropSubs sid') s' = None).
-Proof. exact wedged_forever. Qed.
-Print Assumptions C20_async_drop_wedged_for_ever.
-
-Theorem C20_async_drop_wedge_reachable : reach all_match wedge_trace wedge_state /\ wedged wedge_state 0 2.
-Proof. exact wedge_reached. Qed.
-Print Assumptions C20_async_drop_wedge_reachable.
 
 (* ------------------------------------------------------------------ the replay stays inside the relation *)
 Theorem C20_run_sound : forall matches tr s, exec matches tr init = Some s -> reach matches tr s.
 Proof. exact exec_reach. Qed.
 Print Assumptions C20_run_sound.
 
-(* ------------------------------------------------------------------ a concrete instance (hypotheses are satisfiable, the
-   conclusion says something): two streams on one rule, three messages, the second stream subscribes after two were decided *)
+(* ------------------------------------------------------------------ concrete instances (hypotheses are satisfiable, the
+   conclusions say something): two streams on one rule, three messages, the second stream subscribes after two were decided *)
 Example C20_example :
   reach by_member ex_trace ex_state /\ Known_C20 ex_trace = false /\ reader ex_state = RIdle /\
   incoming ex_state = [sg 1 1; sg 2 0; sg 3 1] /\
@@ -131,3 +111,9 @@ Example C20_example :
   (exists st, lookup (streams ex_state) 1 = Some st /\ s_from st = 2 /\ s_got st = [IMsg (sg 3 1)]) /\
   lookup (subs ex_state) 1 = Some {| e_ref := 2; e_ch := 2 |}.
 Proof. exact ex_facts. Qed.
+
+(* the history that ended in the async_drop deadlock before fix 90a1ccff now runs to the end *)
+Example C20_former_deadlock_runs :
+  exists s, exec all_match former_deadlock_trace init = Some s /\ reader s = RIdle /\ tasks s = [] /\ subs s = [] /\
+            subs_busy s = false /\ senders s = [(KAll, 0); (KRet, 1); (KErr, 1)].
+Proof. exact former_deadlock_runs. Qed.
